@@ -96,6 +96,9 @@ class CallMixin:
         if k == 'method':
             return self.call_method(st, fv.v[0], fv.v[1], args, module)
         if k == 'ref':
+            for term, clo in st.ghost.get('$clo', ()):
+                if z3.eq(term, fv.v):
+                    return self.inline(st, clo, args)       # a closure we built ourselves, recovered from its boxed identity
             return self.call_opaque(st, fv, args)
         if k == 'bound':
             selfsv, meth = fv.v
@@ -164,8 +167,20 @@ class CallMixin:
         node = clo.node
         if st.depth > self.cfg.max_inline_depth:
             raise Unsupported('inline depth exceeded at %s' % (clo.name or node.lineno))
-        if isinstance(node, ast.FunctionDef) and any(isinstance(n, (ast.Yield, ast.YieldFrom)) for n in ast.walk(node)):
-            raise Unsupported('generator function %s' % node.name)
+        if isinstance(node, ast.FunctionDef) and any(isinstance(n, (ast.Yield, ast.YieldFrom)) for n in ast.walk(node)) and not getattr(self, 'run_generators', False):
+            # calling a generator function runs nothing: the result is a generator object determined by the function and its arguments
+            s = st.fork()
+            pos = list(args.pos)
+            if clo.selfsv is not None:
+                pos = [clo.selfsv] + pos
+            if not args.static() or args.kw:
+                raise Unsupported('generator call with dynamic / keyword arguments')
+            for a in pos:
+                self.publish(s, a)
+            terms = [self.box(s, a) for a in pos]
+            t = fn('gen!' + (clo.name or node.name), *([R] * len(terms)), R)(*terms)
+            s.add(t != Z.NONE, z3.Not(Z.is_int(t)), z3.Not(Z.is_str(t)), z3.Not(Z.is_tuple(t)))
+            return [('ok', s, sv_ref(t))]
         s = st.fork()
         caller = s.fid
         new = s.nframes
@@ -280,7 +295,7 @@ class CallMixin:
             init0 = self.repo.lookup_method(ci, '__init__')
             can_inline = (init0 is not None and init0.node.args.vararg is not None and args.dstar is None and args.star is not None
                           and len(args.pos) + 1 >= len(init0.node.args.args) and cname in self.cfg.inline_star_ctors)
-            if not args.static() and not can_inline:
+            if (not args.static() and not can_inline) or cname in self.cfg.pure_ctors:
                 # constructor with dynamic *args / **kwargs: the new object is a pure function of the boxed arguments
                 s = st.fork()
                 posb, kwb = self.box_args(s, args)
